@@ -187,3 +187,7 @@ fn trie_array_parser(input: &[u8], offset: usize, trie_size: u32) -> SudachiResu
     let trie_data = &input[trie_start..trie_end];
     Ok(trie_data)
 }
+
+// verification hook: harness text lives outside the repository (see MANIFEST.hooks)
+#[cfg(any(kani, sudachi_verif))]
+include!(concat!(env!("SUDACHI_VERIF_DIR"), "/dic__lexicon__mod.rs"));
